@@ -32,6 +32,11 @@ package git
 //@   ensures result2 == nil ==> len(iter.data) < len(old(iter.data))
 //@   ensures result2 == nil ==> len(result0) + len(result1) + 2 + len(iter.data) == len(old(iter.data))
 //@   ensures result2 != nil ==> iter.data == old(iter.data)
+//@   ensures result2 == nil ==> same(result0, old(iter.data)[:len(result0)]) && same(result1, old(iter.data)[len(result0)+1 : len(result0)+1+len(result1)])
+//@   ensures result2 == nil ==> old(iter.data)[len(result0)] == ' ' && old(iter.data)[len(result0)+1+len(result1)] == '\n'
+//@   ensures result2 == nil ==> forall k int :: 0 <= k && k < len(result0) ==> old(iter.data)[k] != ' '
+//@   ensures result2 == nil ==> forall k int :: 0 <= k && k < len(result1) ==> result1[k] != '\n'
+//@   ensures result2 == nil && old(iter.data)[0] == ' ' ==> len(result0) == 0
 
 // ---------------------------------------------------------------- gitconfig.go (C15)
 
@@ -137,6 +142,15 @@ package git
 //@   loop 0 step len(out) < len(prev(out))
 //@   loop 0 step forall k int :: 0 <= k && k < len(prev(out)) - len(out) - 1 ==> prev(out)[k] != 0
 //@   loop 0 step prev(out)[len(prev(out)) - len(out) - 1] == 0
+//@   call 0 bytes.IndexByte as recEnd
+//@   call 1 bytes.IndexByte as keyEnd
+//@   call 0 configKeyMatchesPrefix as km
+//@   loop 0 step same(record, prev(out)[:recEnd])
+//@   loop 0 step keyEnd == -1 ==> same(key, record) && len(value) == 0
+//@   loop 0 step keyEnd >= 0 ==> same(key, record[:keyEnd]) && same(value, record[keyEnd+1:])
+//@   loop 0 step km0 ==> len(config.Entries) == prev(len(config.Entries)) + 1 && same(config.Entries[len(config.Entries)-1].Key, km1) && same(config.Entries[len(config.Entries)-1].Value, value)
+//@   loop 0 step !km0 ==> same(config.Entries, prev(config.Entries))
+//@   loop 0 step forall k int :: 0 <= k && k < prev(len(config.Entries)) ==> same(config.Entries[k], prev(config.Entries)[k])
 
 //@ property C16: (*TreeIter).NextEntry (Tree).Size ParseTree (*Tree).Iter (*ObjectHeaderIter).HasNext (*ObjectHeaderIter).Next NewObjectHeaderIter OIDFromBytes NewOID (OID).MarshalJSON ParseCommit ParseTag ParseBatchHeader ParseReference
 //@ property C15: configKeyMatchesPrefix (*Repository).GetConfig
